@@ -12,15 +12,19 @@ import HL.Lemmas.ParserSync
 namespace HL.Parser
 open HL HL.Ast
 
-/-- Lines and bytes inserted in front of a region of the file. -/
+/-- Lines and bytes inserted in front of a region of the file, and `perLine` more bytes in front
+    of a position for every line end that precedes it (`perLine = 1`: every LF of the region
+    became CR LF; `perLine = 0`: a plain shift). -/
 structure Shift where
   dl : Nat
   doff : Nat
+  perLine : Nat := 0
 
 namespace Shift
 variable (d : Shift)
 
-def pos (p : Pos) : Pos := if p.line = 0 then p else ⟨p.line + d.dl, p.col, p.off + d.doff⟩
+def pos (p : Pos) : Pos :=
+  if p.line = 0 then p else ⟨p.line + d.dl, p.col, p.off + d.doff + d.perLine * (p.line - 1)⟩
 def rng (r : Rng) : Rng := ⟨d.pos r.start, d.pos r.stop⟩
 def tok (t : Token) : Token := ⟨t.ty, t.val, d.pos t.pos, d.pos t.stop⟩
 def tag (t : Tag) : Tag := ⟨t.name, t.value, d.rng t.range⟩
